@@ -33,6 +33,8 @@ REQUIRED_OBS = ['d1_real_to_oracle', 'd2_real_roundtrip', 'd3_oracle_to_real', '
 
 def cases(tier, seed):
     out = [dict(id='directed', kind='directed')]
+    for idx in range(8 if tier == 'thorough' else 2):
+        out.append(dict(id='times-%d' % idx, kind='times', seed=seed * 7901 + idx, count=4000 if tier == 'thorough' else 800))
     nblocks = 320 if tier == 'thorough' else 48
     per = 1000 if tier == 'thorough' else 250
     for idx in range(nblocks):
@@ -81,6 +83,9 @@ def _directed():
     for content in (0, False, [], {}, b'', '', None, 7, [1, 2], {1: 2}, 'text'):
         for rtype in (2, 9, 65536):
             out.append(dict(primary=dict(base_pri, flags=bpv7.FLAG_ADMIN), blocks=[dict(pay, data=cw.enc([rtype, content]))]))
+    # records whose content is valid CBOR that a "canonicalising" re-encoder would rewrite: map keys out of order, a float wider than needed
+    for raw in ('8209a202010102', '8209a20a0002a205010302', '8209fb3ff8000000000000', '820282fa3fc00000a2616201616101', '8209a218640101f5'):
+        out.append(dict(primary=dict(base_pri, flags=bpv7.FLAG_ADMIN), blocks=[dict(pay, data=bytes.fromhex(raw))]))
     for reason in list(range(0, 20)) + [255, 256, 2 ** 32]:
         adm = dict(status=[(True, None), (False, None), (False, None), (True, None)], reason=reason, src='dtn://s/', create_time=3, seqno=4,
                    frag_offset=None, payload_len=None)
@@ -180,6 +185,22 @@ def check_bundle(bundle, obs, typed):
                 if view.get(blk['num']) != exp:
                     viols.append(('d3', 'typed block %d decoded as %r, expected %r' % (blk['num'], view.get(blk['num']), exp),
                                   dict(enc=enc_orc.hex()[:400])))
+        # other administrative records: record type and content as decoded
+        if bundle['primary']['flags'] & bpv7.FLAG_ADMIN and not is_frag and 'admin' not in bundle:
+            try:
+                rec = cw.parse_all(bpv7.payload_of(bundle)['data']).to_python()
+            except cw.CborError:
+                rec = None
+            if isinstance(rec, list) and len(rec) == 2 and isinstance(rec[0], int) and rec[0] != 1:
+                obs['other_admin_records'] = obs.get('other_admin_records', 0) + 1
+                real_rec = back.blocks[-1].payload
+                got_type = getattr(real_rec, 'type_code', None)
+                inner = getattr(real_rec, 'payload', None)
+                got = inner.fields.get('item', 'absent') if hasattr(inner, 'fields') and type(inner).__name__ == 'CborItem' else 'no content layer (%s)' % type(inner).__name__
+                want_content = rec[1]
+                same = (got_type == rec[0]) and (got == want_content and type(got) is type(want_content) or (isinstance(want_content, float) and got == want_content))
+                if not same:
+                    viols.append(('d3', 'administrative record [%r, %r] decoded as type %r content %r' % (rec[0], want_content, got_type, got), dict(enc=enc_orc.hex()[:400])))
         if 'admin' in bundle:
             obs['status_reports'] += 1
             adm = bundle['admin']
@@ -244,10 +265,52 @@ def classify(kind, what, bundle):
     return None
 
 
+def check_times(case, obs):
+    ''' Times assigned as calendar values (datetime / ISO text) must reach the wire as exactly that many milliseconds since
+    2000-01-01T00:00:00Z, and decode back to the same instant; expected values by integer arithmetic only. '''
+    import datetime
+    from bp.encoding import Bundle, PrimaryBlock, CanonicalBlock, Timestamp
+    rng = random.Random(case['seed'])
+    epoch = datetime.datetime(2000, 1, 1, tzinfo=datetime.timezone.utc)
+    values = set()
+    for exp in range(1, 48):
+        for delta in (-3, -2, -1, 0, 1, 2, 3, 1001, -999):
+            values.add((1 << exp) + delta)
+    values |= {1, 999, 1000, 1001, 1003, 2006, 86400000, 820540000123, 1072915200001}
+    values |= {rng.randrange(1, 1 << rng.randrange(8, 47)) for _ in range(case['count'])}
+    viols = []
+    for val in sorted(v for v in values if 0 < v < 2 ** 47):
+        when = epoch + datetime.timedelta(milliseconds=val)
+        for form in ('datetime', 'text'):
+            given = when if form == 'datetime' else when.replace(tzinfo=None).isoformat(timespec='milliseconds')
+            obs['time_conversions'] = obs.get('time_conversions', 0) + 1
+            try:
+                real = Bundle(primary=PrimaryBlock(destination='dtn://d/', source='dtn://s/', report_to='dtn:none',
+                                                   create_ts=Timestamp(dtntime=given, seqno=7), lifetime=5, crc_type=0),
+                              blocks=[CanonicalBlock(type_code=1, block_num=1, btsd=b'x')])
+                real.fill_fields()
+                enc = bytes(real)
+                dec, _problems = bpv7.decode(enc)
+                back = Bundle(enc).primary.create_ts.dtntime
+            except Exception as err:  # pylint: disable=broad-except
+                viols.append(('time', 'creation time %s given as %s: %s: %s' % (when.isoformat(), form, type(err).__name__, err), {}))
+                continue
+            if dec['primary']['create_time'] != val:
+                viols.append(('time', 'creation time %s (%d ms after the epoch) given as %s is encoded as %d' % (when.isoformat(), val, form, dec['primary']['create_time']), {}))
+            elif back != when:
+                viols.append(('time', 'creation time %s decodes back to %s' % (when.isoformat(), back), {}))
+    return viols
+
+
 def run_case(case):
     obs = dict(d1_real_to_oracle=0, d2_real_roundtrip=0, d3_oracle_to_real=0, status_reports=0, fragments=0, typed_blocks=0)
     violations = []
     classes = set()
+    if case['kind'] == 'times':
+        viols = check_times(case, obs)
+        violations = [dict(key=None, what='%s: %s' % (kind, what), detail=detail) for (kind, what, detail) in viols[:10]]
+        return dict(verdict='violated' if violations else 'held', nontrivial=True, cls={'times|%d' % case['seed']}, obs=obs,
+                    violations=violations, sample=dict(kind='times'), evaluations=obs.get('time_conversions', 0))
     if case['kind'] == 'directed':
         items = [(bundle, bundle.pop('_typed', idx % 2 == 0)) for idx, bundle in enumerate(_directed())]
     else:
